@@ -114,14 +114,15 @@ Fixpoint sm (t : tok) (w : str) (q : fstate) (k : K) {struct t} : bool :=
          | t0 :: ts' => sm t0 w q (fun w' q' => go ts' w' q')
          end) ts w q
   | TRep _ b lo hi =>
-      (* iterations that neither consume text nor change the scan state can be dropped, so
-         [length w + 4] optional iterations are enough for an unbounded upper bound *)
-      let slack := (length w + 4)%nat in
+      (* iterations that neither consume text nor change the scan state can be dropped; every other iteration
+         lowers 2 * (remaining text) + rank of the scan state, so [2 * length w + 4] optional iterations are enough
+         for an unbounded upper bound (SpecMatchFacts.spec_match_complete) *)
+      let slack := (2 * length w + 4)%nat in
       let opt := match hi with
                  | Some h => Nat.min (N.to_nat (h - lo)) slack
                  | None => slack
                  end in
-      rep_req (sm b) (N.to_nat lo) opt w q k
+      (match hi with Some h => lo <=? h | None => true end) && rep_req (sm b) (N.to_nat lo) opt w q k
   end.
 
 Definition spec_match (t : tok) (w : str) : bool :=
